@@ -8,7 +8,9 @@ never from the implementation: byte sets as Python sets rendered to plain interv
 surrogate arithmetic, UTF-32 as scalar values, uintN by shift/or in both byte orders, masks by `&`.
 """
 import os
+import re
 import string
+import sys
 import vf
 import leafgen
 
@@ -85,6 +87,38 @@ def char_range(lo, hi):
     return {b for b in ALL if schar(lo) <= schar(b) <= schar(hi)}
 
 
+ESC = {'0': 0, 't': 9, 'n': 10, 'v': 11, 'f': 12, 'r': 13, '\\': 92, "'": 39}
+
+
+def doc_ascii_sets():
+    """rule name -> byte set (or list of byte sets for a fixed string), evaluated from the `[Equivalent] to` clauses of the
+    "ASCII Rules" section of doc/Rule-Reference.md (only clauses built from one/range/ranges/three/two/bytes with constant arguments)"""
+    txt = open(os.path.join(vf.REPO, 'doc', 'Rule-Reference.md')).read()
+    m = re.search(r'^## ASCII Rules$(.*?)^## ', txt, re.S | re.M)
+    out = {}
+    for name, body in re.findall(r'^###### `(\w+)`\n(.*?)(?=^######|\Z)', m.group(1) if m else '', re.S | re.M):
+        e = re.search(r'\[Equivalent\] to `(\w+)< ([^<>`]*) >`', body)
+        if not e:
+            continue
+        args = []
+        for a in re.findall(r"'(?:\\.|[^'\\])'|\d+", e.group(2)):
+            args.append(int(a) if a[0] != "'" else ESC[a[2]] if a[1] == '\\' else ord(a[1]))
+        if len(args) != len(e.group(2).split(',')):
+            continue
+        kind = e.group(1)
+        if kind == 'one':
+            out[name] = set(args)
+        elif kind == 'range' and len(args) == 2:
+            out[name] = set(range(args[0], args[1] + 1))
+        elif kind == 'ranges':
+            out[name] = set().union(*[set(range(args[i], args[i + 1] + 1)) for i in range(0, len(args) - 1, 2)]) | (set(args[-1:]) if len(args) % 2 else set())
+        elif kind == 'bytes' and args == [1]:
+            out[name] = set(ALL)
+        elif kind in ('two', 'three') and len(args) == 1:
+            out[name] = [set(args)] * (2 if kind == 'two' else 3)
+    return out
+
+
 def case(name, cxx, pre, can_match=True, can_fail=True, linecol=True, k=1, reach=(), doc=''):
     return {'name': name, 'cxx': cxx, 'pre': pre, 'can_match': can_match, 'can_fail': can_fail, 'linecol': linecol, 'k': k, 'reach': list(reach), 'doc': doc}
 
@@ -125,6 +159,12 @@ def ascii_groups(thorough):
         ('xdigit', S(string.hexdigits), 'ASCII hexadecimal digit'),
     ]
     assert S(string.whitespace) == S(' \n\r\t\v\f') and S(string.hexdigits) == DIGITS | S('abcdefABCDEF')
+    # the sets above are written from the prose of the documentation; they must agree with the documentation's [Equivalent] clauses
+    doc = doc_ascii_sets()
+    bad = [n for n, s, d in cls + [('ellipsis', [S('.')] * 3, '')] if doc.get(n) != s]
+    if bad:
+        print('INCONCLUSIVE property=C10 query=plan reason=specification sets disagree with the [Equivalent] clauses of doc/Rule-Reference.md for: ' + ', '.join(bad))
+        sys.exit(2)
     cs = [byte_case(n, n, s, d) for n, s, d in cls]
     G.append({'name': 'ascii_class1', 'cases': cs[:8], 'alphabet': 'azAZ09_ \\t\\n\\r\\000\\177\\200\\377@[`{/:'})
     cs2 = cs[8:]
@@ -185,9 +225,7 @@ def ascii_groups(thorough):
 
     def ist(name, vals):
         # "For ASCII letters a-z and A-Z the match is case insensitive", every other character matches itself only
-        sets = [({v | 0x20, v & ~0x20} if v in LETTERS else {v}) for v in vals]
-        for v, s in zip(vals, sets):
-            assert s == ({o(chr(v).lower()), o(chr(v).upper())} if v in LETTERS else {v})
+        sets = [({o(chr(v).lower()), o(chr(v).upper())} if v in LETTERS else {v}) for v in vals]
         return bytes_case(name, 'istring< %s >' % ', '.join(map(cch, vals)) if vals else 'istring<>', sets, 'string with case-insensitive ASCII letters')
 
     G.append({'name': 'ascii_string', 'alphabet': 'abcABC\\n\\000\\377\\177', 'cases': [
@@ -466,10 +504,7 @@ BLOCK = r'''#if !defined(VF_SPLIT) || V_%(name)s
     u64 cp = 0; (void)cp;
     c10_linecol = %(linecol)d;
     %(pre)s
-    RUN(w_%(name)s_ar, 1); RUN(w_%(name)s_ao, 0);
-#if !defined(VF_SPLIT) || V_ALLMODES
-    RUN(w_%(name)s_nr, 1); RUN(w_%(name)s_no, 0);
-#endif
+    RUN(w_%(name)s_ar, 1); RUN(w_%(name)s_ao, 0); RUN(w_%(name)s_nr, 1); RUN(w_%(name)s_no, 0);
     OBS(er); OBS(len);
 %(reach)s
   }
@@ -509,11 +544,9 @@ def plan(ctx):
         for i, cs in enumerate(chunk(g['cases'], len(g['cases']))):
             cd = {'VF_SPLIT': 1}
             cd.update(('V_' + c['name'], 1) for c in cs)
-            if thorough:
-                cd['V_ALLMODES'] = 1
             qname = '%s/%s' % (g['name'], cs[0]['name'] + ('..' + cs[-1]['name'] if len(cs) > 1 else ''))
-            qs.append(vf.Query(('known/%s/' % kf if kf else '') + qname, unit, h, unwind=NA + 3, cbmc_defines=cd, mem_gb=2, expect_fail=kf,
-                               bounds={'bytes': NA, 'unit_bytes': k, 'rules': [c['cxx'] for c in cs], 'modes': ['ar', 'ao', 'nr', 'no'] if thorough else ['ar', 'ao'],
+            qs.append(vf.Query(('known/%s/' % kf if kf else '') + qname, unit, h, unwind=NA + 3, cbmc_defines=cd, mem_gb=4 if g['name'].startswith('utf8') else 2, expect_fail=kf,
+                               bounds={'bytes': NA, 'unit_bytes': k, 'rules': [c['cxx'] for c in cs], 'modes': ['ar', 'ao', 'nr', 'no'],
                                        'spec': {c['cxx']: c['pre'] for c in cs}},
                                note='real %s on %d symbolic bytes (all lengths 0..%d, all start offsets) vs independent specification' % (', '.join(c['cxx'] for c in cs), NA, NA)))
     return qs
